@@ -23,7 +23,8 @@ type ContinuousPool struct {
 	stopWorkers        atomic.Bool
 }
 
-func (p *ContinuousPool) Start(ctx context.Context) {
+// Start launches the users. The context it returns ends with ctx, or when the iteration limit is reached.
+func (p *ContinuousPool) Start(ctx context.Context) context.Context {
 	workerCtx, workerCtxCancel := context.WithCancel(ctx)
 	p.workerCtxCancel = workerCtxCancel
 
@@ -48,6 +49,8 @@ func (p *ContinuousPool) Start(ctx context.Context) {
 	for _, iterationState := range p.iterationStatePool {
 		go p.startWorker(iterationState, &workersStarted)
 	}
+
+	return workerCtx
 }
 
 func (p *ContinuousPool) maxIterationsReached() {
